@@ -77,16 +77,25 @@ impl<'a> EntryWriter<'a> for Collect {
 }
 
 /// Flags set by harness threads immediately before / after a drop (plain std state).
-#[derive(Default)]
 pub struct Flags {
+    /// setting and reading the flags are scheduler-visible steps on one marker, so that "the drop
+    /// had (not) started when the entry was appended" is decided at the real instant
+    shadow: LArc<Shadow>,
     started: Mutex<BTreeMap<String, bool>>,
     finished: Mutex<BTreeMap<String, bool>>,
 }
+impl Default for Flags {
+    fn default() -> Self {
+        Flags { shadow: LArc::new(Shadow::new()), started: Default::default(), finished: Default::default() }
+    }
+}
 impl Flags {
     fn start(&self, what: &str) {
+        self.shadow.touch();
         self.started.lock().unwrap().insert(what.to_string(), true);
     }
     fn finish(&self, what: &str) {
+        self.shadow.touch();
         self.finished.lock().unwrap().insert(what.to_string(), true);
     }
     fn started(&self) -> BTreeMap<String, bool> {
@@ -125,6 +134,7 @@ impl RecSink {
 impl EntrySink<RootMetric<Work>> for RecSink {
     fn append(&self, entry: RootMetric<Work>) {
         self.shadow.touch();
+        self.flags.shadow.touch();
         let mut c = Collect(BTreeMap::new());
         entry.write(&mut c);
         self.appended.lock().unwrap().push(Appended {
